@@ -37,7 +37,7 @@ func c08(c *Ctx) {
 	r.Floor("result origin checks (O2)", outs, 16)
 	r.Floor("retained-state fields checked (O1)", keeps, 2)
 	fns = append(fns, av1Setup(c)...)
-	r.Floor("LEB128 length lemma rows (LEB.len)", lebRules(c, false), 10)
+	r.Floor("LEB128 length lemma rows (LEB.len)", lebRules(c, "len"), 10)
 	boundsFor(c, "C08", fns)
 	nm := 0
 	for _, o := range r.Obls {
